@@ -34,7 +34,7 @@ T = {
          "to that call, for declared lengths 0..2^64-1; C07_*_growth: the body/chunk buffers grow by at most what the call consumed. Runtime part: a counting global "
          "allocator measures the largest single request and the peak during each parse call; bound 4096+8*presented / 16384+24*presented; allocations above 1 GiB are refused so that an abort is observed.",
          "Real allocator traffic (Vec doubling, error payloads, dependency Strings) is measured, not proved."),
- "C08": ("Theorems C08_accepted_request_line_within_limit, C08_accepted_within_max (count computed without wrap-around), C08_declared_length_cannot_bypass (any declared length up to 2^64-1), C08_need_more_only_within_max (under every delivery schedule, consumed + pending <= max whenever more input is requested), C08_none_request_line_limit / C08_none_header_line_limit / C08_none_max_message_size (a call not answered with limit X's rejection gives the same answer and state with X = None, the other two limits unchanged: None disables exactly that limit); defaults and exact boundary behaviour as Examples; never-rejected-for-size within limits follows from C03_accept_complete whose grammar carries the limits, and C03_rejection_names_first_defect says exactly when each size rejection is issued. Correspondence: limits swept -2..+2 around the measured element lengths, both build profiles.",
+ "C08": ("Theorems C08_accepted_request_line_within_limit, C08_accepted_within_max (count computed without wrap-around), C08_declared_length_cannot_bypass (any declared length up to 2^64-1), C08_need_more_only_within_max (under every delivery schedule, consumed + pending <= max whenever more input is requested), C08_none_request_line_limit / C08_none_header_line_limit / C08_none_max_message_size (a call not answered with limit X's rejection gives the same answer and state with X = None, the other two limits unchanged: None disables exactly that limit), C08_request_line_rejection_exact / C08_header_line_rejection_exact / C08_message_size_rejection_exact (a size rejection is issued only when that limit is really exceeded by the line, or by the bytes presented, or by head + declared length); defaults and exact boundary behaviour as Examples; never-rejected-for-size within limits follows from C03_accept_complete whose grammar carries the limits, and C03_rejection_names_first_defect says exactly when each size rejection is issued. Correspondence: limits swept -2..+2 around the measured element lengths, both build profiles.",
          "Known finding K1 (rhymessage does not limit folded continuation lines) is stated as an Example and reported as KNOWN-FINDING; header-line limit theorems are inside C03's grammar (first lines + empty line)."),
  "C09": ("Theorems C09_request_suffix / C09_request_local / C09_response_suffix / C09_request_pipeline / C09_response_pipeline: a Complete answer is "
          "unchanged by any appended bytes, depends only on the consumed bytes, and a concatenation of messages is split by fresh parsers at the "
